@@ -12,6 +12,8 @@
  */
 
 #include "functionRemap.h"
+
+#include <sstream>
 #include "typeManager.h"
 #include "interrogate.h"
 #include "parameterRemap.h"
@@ -281,11 +283,19 @@ call_function(ostream &out, int indent_level, bool convert_result,
  */
 void FunctionRemap::
 write_orig_prototype(ostream &out, int indent_level, bool local, int num_default_args) const {
+  // The prototype is written into comments.  A default argument such as
+  // "a*/b" must not end a C-style comment early, so break up any "*/".
+  std::ostringstream prototype;
   if (local) {
-    _cppfunc->output(out, indent_level, nullptr, false, num_default_args);
+    _cppfunc->output(prototype, indent_level, nullptr, false, num_default_args);
   } else {
-    _cppfunc->output(out, indent_level, &parser, false, num_default_args);
+    _cppfunc->output(prototype, indent_level, &parser, false, num_default_args);
   }
+  std::string str = prototype.str();
+  for (size_t p = str.find("*/"); p != std::string::npos; p = str.find("*/", p + 3)) {
+    str.replace(p, 2, "* /");
+  }
+  out << str;
 }
 
 /**
